@@ -101,8 +101,10 @@ def has_kind(t, kinds):
     return any(isinstance(c, (tuple, list)) and has_kind(c, kinds) for c in t[1:])
 
 
-def sizing(t):
+def sizing(t, small=False):
     """(bit-vector width, bound of the label leaves) chosen from the operators in the tree"""
+    if small:
+        return 48, 1 << 5
     if has_div(t):
         return 64, 1 << 6
     if has_kind(t, ('lsb', 'byte')) and has_kind(t, ('*', '<<')):
@@ -198,7 +200,7 @@ class ExprShape(Shape):
 
     @property
     def width(self):
-        return sizing(self.params['tree'])[0]
+        return sizing(self.params['tree'], self.params.get('small'))[0]
 
     def setup(self, symbolic):
         if symbolic:
@@ -206,7 +208,7 @@ class ExprShape(Shape):
             shims.install()
 
     def expected_outcomes(self):
-        return ['ok'] if self.sid.split(':')[0] in ('op1', 'op2', 'op3', 'hand', 'after-op1', 'after-hand', 'neg-mid', 'neg-first', 'neg-last', 'neg-mid-right') else []
+        return ['ok'] if self.sid.split(':')[0] in ('op1', 'op2', 'op3', 'hand', 'after-op1', 'after-hand', 'small', 'neg-mid', 'neg-first', 'neg-last', 'neg-mid-right') else []
 
     def _leaves(self):
         out = []
@@ -227,7 +229,7 @@ class ExprShape(Shape):
         from bespokeasm.assembler.label_scope import GlobalLabelScope
         from bespokeasm.assembler.line_identifier import LineIdentifier
         lid = LineIdentifier(7, 'expr')
-        lim = sizing(self.params['tree'])[1]
+        lim = sizing(self.params['tree'], self.params.get('small'))[1]
         scope = GlobalLabelScope(set())
         counts = shift_count_leaves(self.params['tree'])
         for nm in self._leaves():
@@ -443,6 +445,12 @@ def shapes(tier, seed):
             add('dec3', decorate(t, rnd))
     for i, txt in enumerate(MALFORMED):
         S.append(MalformedShape(f'malformed:{i}:{txt}', text=txt))
+    # quotients that feed another operator, leaves |v| <= 32: if the evaluator goes through binary floating point the
+    # solver has to reason in QF_FP, which it does in seconds only for operands this small
+    S4 = ('leaf', 's')
+    for t in [('+', ('/', P, Q), ('/', R, Q)), ('-', ('/', P, Q), ('/', R, Q)), ('+', ('/', P, Q), ('/', R, S4)),
+              ('*', ('/', P, Q), R), ('-', ('/', P, Q), R)]:
+        S.insert(0, ExprShape('small:' + render(t), tree=t, small=True))
     # the verdict on a text does not depend on what was parsed before it in the same run
     for i, txt in enumerate(MALFORMED):
         S.append(MalformedShape(f'malformed-after:{i}:{txt}', text=txt, history=True))
